@@ -7,6 +7,7 @@ import Pymc.Model.Rendezvous
 import Pymc.Model.Readers
 import Pymc.Model.ServerSpec
 import Pymc.Model.Client
+import Pymc.Model.ApiSpec
 /-! Line-protocol driver of the Lean models (one request per line, one reply line per request).
     Rejects what it cannot parse (`bad-op`), never defaults. -/
 open Bytes
@@ -317,6 +318,12 @@ def handleStateful (d : DState) (ws : List String) : Option (DState × String) :
     match Wire.parseAll data.length data with
     | some reqs => pure (d, s!"ok {reqs.length} {repr reqs}".replace "\n" " ")
     | none => pure (d, "ok MALFORMED")
+  | "spec.call" :: rest => do
+    let i ← (← arg rest "id").toNat?
+    let (cfg, _) ← parseCfg rest
+    let c ← parseCall rest
+    let (s', r) := ApiSpec.spec cfg (d.get i) c
+    pure (d.set i s', s!"ok res={showExcept r}")
   | "cs.call" :: rest => do
     let i ← (← arg rest "id").toNat?
     let (cfg, _) ← parseCfg rest
